@@ -1,7 +1,9 @@
 #!/bin/bash
 # runs every registered quick (or $1=thorough) check on /repo's current tree, sequentially, and validates evidence
 tier=${1:-quick}
-cd /verif
+HERE=$(cd "$(dirname "$0")/.." && pwd)
+cd "$HERE"
+EV=${VERIF_EVIDENCE_DIR:-$HERE/evidence}
 rc_all=0
 for p in $(python3 -c "import json; print(' '.join(c['property_id'] for c in json.load(open('MANIFEST.json'))['checks']))"); do
   start=$(date +%s)
@@ -10,8 +12,8 @@ for p in $(python3 -c "import json; print(' '.join(c['property_id'] for c in jso
   python3-vt - <<PY
 import json,jsonschema
 try:
-    jsonschema.validate(json.load(open('/verif/evidence/$p.json')),json.load(open('/root/.vp/EVIDENCE.schema.json')))
-    d=json.load(open('/verif/evidence/$p.json'))
+    jsonschema.validate(json.load(open('$EV/$p.json')),json.load(open('/root/.vp/EVIDENCE.schema.json')))
+    d=json.load(open('$EV/$p.json'))
     ok = d['coverage']['obligations']==d['coverage']['discharged']
     print("   evidence valid; discharged==obligations:", ok, " rc=$rc  ", $(date +%s)-$start, "s")
 except Exception as e:
